@@ -69,3 +69,18 @@ def reads_param_before(l: "Lazy"):
 def reads_param_behind(l: "Lazy"):
     l.compute_landscape()
     return l.depth
+
+
+def _depth_of(l):
+    return l.depth
+
+
+def helper_after_compute(l: "Lazy"):
+    l.compute_landscape()
+    return _depth_of(l)
+
+
+def helper_before_compute(l: "Lazy"):
+    n = _depth_of(l)
+    l.compute_landscape()
+    return n
